@@ -2,6 +2,7 @@ package main
 
 import (
 	"go/ast"
+	"go/token"
 	"go/types"
 	"strings"
 )
@@ -22,7 +23,7 @@ func init() {
 		Explanation: "Decides who builds the remote command line and what may be written into it unquoted, not the quoting function's byte-level correctness: (ssh-exec-source) the only string ever passed to " +
 			"ssh.Session.Start/Run/Output/CombinedOutput in plumbing/transport/ssh is the result of buildCommand; (quoted-args) inside buildCommand the builder receives only constants and req.Command directly; " +
 			"req.URL.Path and every element of req.Args are passed to writeShellQuote, and the builder is handed to no other function; (quote-shape) writeShellQuote opens and closes with a single quote and has a " +
-			"branch that treats both ' and ! specially. Not decided: that the emitted bytes dequote to the original words for all inputs (a value property of the loop body).",
+			"branch that treats both ' and ! specially; (special-byte-escaped-each-time) with the current byte assumed to be ' (and !) no write of that byte is reachable in the iteration before a write whose constant argument contains a backslash — each special byte gets an escape of its own, whatever state the routine keeps. Not decided: that the emitted bytes dequote to the original words for all inputs (a value property of the loop body).",
 		Assumptions: []string{"req.Command is a fixed service name chosen by go-git"},
 		Run:         runC41,
 	})
@@ -496,4 +497,81 @@ func runC41(c *Ctx) {
 		return true
 	})
 	c.Check(special, r3, quote.Name()+":special-bytes", quote.Decl.Pos(), "a branch handles both ' and !")
+
+	// Every special byte gets a backslash of its own: under the assumption that the current byte is ' (and, separately,
+	// !) no write of that byte is reachable within the iteration before a write whose constant argument contains a
+	// backslash. Whatever else a quoting scheme does (keep the quote open, close it once for a run of specials), a '
+	// that is written without its own backslash either ends a quoted section or is a bare quote character.
+	const r4 = "special-byte-escaped-each-time"
+	var cur types.Object // the byte of the iteration: c := s[i], or the range value
+	var loopBody *ast.BlockStmt
+	ast.Inspect(quote.Decl.Body, func(n ast.Node) bool {
+		switch v := n.(type) {
+		case *ast.RangeStmt:
+			if v.Value != nil && cur == nil {
+				cur, loopBody = objOf(info, v.Value), v.Body
+			}
+		case *ast.ForStmt:
+			if cur == nil {
+				ast.Inspect(v.Body, func(m ast.Node) bool {
+					if as, ok := m.(*ast.AssignStmt); ok && as.Tok == token.DEFINE && len(as.Lhs) == 1 && len(as.Rhs) == 1 {
+						if _, isIx := unparen(as.Rhs[0]).(*ast.IndexExpr); isIx && cur == nil {
+							cur, loopBody = objOf(info, as.Lhs[0]), v.Body
+						}
+					}
+					return true
+				})
+			}
+		}
+		return true
+	})
+	if cur == nil || loopBody == nil {
+		c.Hold(r4, quote.Name(), quote.Decl.Pos(), "not decided: no per-byte loop with a variable holding the current byte")
+	} else {
+		f := p.FlowOf(quote)
+		writesCur := func(nd ast.Node) bool {
+			return nodeHasCall(nd, false, func(call *ast.CallExpr) bool {
+				sel, ok := unparen(call.Fun).(*ast.SelectorExpr)
+				return ok && (sel.Sel.Name == "WriteByte" || sel.Sel.Name == "WriteRune" || sel.Sel.Name == "WriteString") && len(call.Args) == 1 && usesObj(info, call.Args[0], cur)
+			}) != nil
+		}
+		writesBackslash := func(nd ast.Node) bool {
+			return nodeHasCall(nd, false, func(call *ast.CallExpr) bool {
+				sel, ok := unparen(call.Fun).(*ast.SelectorExpr)
+				if !ok || !strings.HasPrefix(sel.Sel.Name, "Write") || len(call.Args) != 1 {
+					return false
+				}
+				tv := info.Types[call.Args[0]]
+				if tv.Value == nil {
+					return false
+				}
+				s := tv.Value.ExactString()
+				return strings.Contains(s, `\\`) || s == "92"
+			}) != nil
+		}
+		// the start: the first node of the loop body
+		var start *Loc
+		for _, b := range f.G.Blocks {
+			for i, nd := range b.Nodes {
+				if len(loopBody.List) > 0 && nd.Pos() == loopBody.List[0].Pos() && start == nil {
+					l := Loc{b, i}
+					start = &l
+				}
+			}
+		}
+		if start == nil {
+			c.Hold(r4, quote.Name(), quote.Decl.Pos(), "not decided: the loop body is not in the flow graph")
+		} else {
+			for _, sp := range []struct {
+				name string
+				val  int64
+			}{{"quote", 39}, {"bang", 33}} {
+				as := &condAssume{info: info, ival: map[types.Object]int64{cur: sp.val}}
+				h := f.Search(SearchOpts{Starts: []Loc{*start}, Sink: writesCur, Barrier: writesBackslash, BlockEdge: as.blockEdge()})
+				c.Check(h == nil, r4, quote.Name()+":"+sp.name, quote.Decl.Pos(), orStr(ifStr(h != nil, "with the current byte equal to "+string(rune(sp.val))+" the byte can be written without a backslash having been written for it in the same iteration (the escape depends on state carried from earlier bytes): adjacent special bytes end up bare, the remote shell sees an unterminated quote or further commands"),
+					"the byte is written only after its own backslash"))
+			}
+		}
+	}
+	c.Floor(r4, 2)
 }
